@@ -349,6 +349,10 @@ def install():
     sys.meta_path.insert(0, _WpullFinder())
     for name in [n for n in sys.modules if n == 'wpull' or n.startswith('wpull.')]:
         del sys.modules[name]
+    if os.environ.get('VERIF_SCRATCH_ROOT') and os.environ.get('VERIF_WRITE_GUARD', '1') != '0':
+        # worker / child process of a check: Python-level writes are confined to the scratch area of the run
+        from compat import guard
+        guard.install([os.environ['VERIF_SCRATCH_ROOT']])
 
 
 def selftest(modules=None):
